@@ -37,7 +37,12 @@ m = dict(
     not_applicable=notapp,
     notes="Every check: ./check <ID> --tier quick|thorough; rebuilds the Coq cone of Props/<ID>.v and runs the Go harness against /repo's current working tree via -overlay. Known findings: /verif/known-findings.json.",
 )
-json.dump(m, open(os.path.join(ROOT, "MANIFEST.json"), "w"), indent=1)
+def atomic_dump(obj, path):
+    tmp = path + ".tmp.%d" % os.getpid()
+    with open(tmp, "w") as f:
+        json.dump(obj, f, indent=1)
+    os.replace(tmp, path)
+atomic_dump(m, os.path.join(ROOT, "MANIFEST.json"))
 # known findings: merge per-property fragments props/<ID>/known-findings.json (committed; never written at check time)
 kf = dict(comment="Merged by tools/mkmanifest.py from props/*/known-findings.json. 'findings' (status open) suppress exactly the listed failing inputs/call sites with a KNOWN-FINDING line; 'fixed' entries suppress nothing.", findings=[], fixed=[])
 for pid in props:
@@ -47,5 +52,5 @@ for pid in props:
         for k in d.get("findings", []):
             k.setdefault("property", pid); k.setdefault("status", "open"); kf["findings"].append(k)
         kf["fixed"] += d.get("fixed", [])
-json.dump(kf, open(os.path.join(ROOT, "known-findings.json"), "w"), indent=1)
+atomic_dump(kf, os.path.join(ROOT, "known-findings.json"))
 print("checks:", len(checks), "not_applicable:", len(notapp))
